@@ -906,11 +906,12 @@ class _ClassBuilder:
         for base_cls in self._cls.__mro__[1:-1]:
             if base_cls.__dict__.get("__weakref__", None) is not None:
                 weakref_inherited = True
+            base_slots = getattr(base_cls, "__slots__", [])
+            if isinstance(base_slots, str):
+                # A single slot may be given as a plain string.
+                base_slots = (base_slots,)
             existing_slots.update(
-                {
-                    name: getattr(base_cls, name)
-                    for name in getattr(base_cls, "__slots__", [])
-                }
+                {name: getattr(base_cls, name) for name in base_slots}
             )
 
         base_names = set(self._base_names)
